@@ -138,6 +138,16 @@ def groups(tier, seed):
           'f\udcff': F(1), 'f\udcfe': F(1), '\udcff\udcfe': D({'\udc80': F(1)})}
     yield {'tree': nu, 'layer': 'non-utf8', 'cases': [{'roots': [[r, a, b, m]], 'lossy': True} for r in ('dot', 'abs', 'rel')
                                                       for (a, b) in windows(3, True) for m in (None, 'bfs', 'dfs')]}
+    # disjoint roots whose paths are textual prefixes of one another (lib, lib64, li): every ordered list of two and three
+    pre = {'lib': D({'a': F(1), 'x': D({'b': F(1)})}), 'lib64': D({'c': F(1), 'y': D({'d': F(1)})}), 'li': D({'e': F(1)}),
+           'lib64x': D({'g': F(1)})}
+    cs = []
+    for k in (2, 3):
+        for names in itertools.permutations(sorted(pre), k):
+            for ws in (((None, None),) * k, ((None, 1),) * k, ((None, None), (None, 1), (2, None))[:k], ((2, None), (None, None), (None, None))[:k]):
+                for m in (None, 'dfs'):
+                    cs.append({'roots': [['sub:' + n, a, b, m] for n, (a, b) in zip(names, ws)]})
+    yield {'tree': pre, 'layer': 'prefix-named-roots', 'cases': cs}
     # the root "/" explored inside a chroot jail
     for sh in core.tree_shapes(3 if tier == 'quick' else 4):
         tree = core.shape_to_tree(sh)
